@@ -497,16 +497,8 @@ theorem C18.dist_zero_iff (H : Hier) (c p : Cls) : H.dist c p = 0 ↔ c = p := b
 /-! ## Index support -/
 
 /-- `Index.is_a_part_of_` is the prefix relation on column tuples - all lengths, all alphabets -/
-theorem C18.isPartOf_iff_prefix {α : Type} [DecidableEq α] (a b : List α) : isPartOf a b = true ↔ a <+: b := by
-  unfold isPartOf
-  by_cases h : a.length > b.length
-  · simp only [h, if_true, Bool.false_eq_true, false_iff]
-    intro hp
-    have := hp.length_le
-    omega
-  · simp only [h, if_false]
-    have := isPartOfLoop_iff a b 0 (Nat.zero_le _) (by omega)
-    simpa using this
+theorem C18.isPartOf_iff_prefix {α : Type} [DecidableEq α] (a b : List α) : isPartOf a b = true ↔ a <+: b :=
+  isPartOf_iff a b
 
 /-- `supports_index`: `None` exactly when the group declares no index columns; otherwise `True` exactly when the index is a
 prefix of one of the supported indexes -/
